@@ -34,6 +34,11 @@ def _c(pid, engine, technique, level_text, level_note, design_ref):
 
 
 CHECKS = [
+    _c("C04", E1,
+       "symbolic execution (CrossHair+z3) of ErrorLog.unique_sorted_errors over symbolic error lists and of CanonicalOrderingVisitor under symbolic permutations of every sortable tuple",
+       "Bounded solver-certified exhaustive check of the two ordering mechanisms through which collection order could reach the output: the error report is sorted, unique and complete for every bounded list of errors, and the canonical form of a unit does not depend on the order of any sortable tuple. The hash seed, process history and encoder bytes are NOT covered (cannot be made symbolic).",
+       "Trusted: CrossHair, z3. Outside: PYTHONHASHSEED, loader reuse, pickle bytes, typegraph set ordering, output.py's collection order.",
+       "DESIGN.md 4 C04"),
     _c("C11", E1,
        "symbolic execution (CrossHair+z3) of optimize.Optimize over bounded pytd units and option sets against a denotational admits() oracle",
        "Bounded solver-certified exhaustive check: for every bounded type tree (as constant, parameter and return type) and every bounded overloaded function, under six option sets, the optimised unit admits a superset of values / calls (equal sets for plain class unions under lossless settings) and optimising twice equals optimising once.",
@@ -86,7 +91,6 @@ NOT_APPLICABLE = {
     "C15": "quantifies over source texts through compile -> blocks -> VM -> output; only the block-graph stage has an encodable kernel, claimed under C16",
     "C20": "merge_pyi parses with libcst's native parser and delegates the merge to libcst's ApplyTypeAnnotationsVisitor; the deciding code is third-party and largely native",
     # Planned in DESIGN.md; listed here until their check is committed:
-    "C04": "check under construction (DESIGN.md 4 C04); not claimed until committed",
     "C05": "check under construction (DESIGN.md 4 C05); not claimed until committed",
     "C09": "check under construction (DESIGN.md 4 C09); not claimed until committed",
     "C16": "check under construction (DESIGN.md 4 C16); not claimed until committed",
